@@ -216,7 +216,7 @@ impl C18 {
                 if macro_fm {
                     cx.violation("lef|mismatch|macro.fixed_mask-not-serialised", json!({"format": f}));
                 }
-                if l2 != *lib {
+                if !lef_same(&l2, lib) {
                     let (class, at) = lef_diff(lib, &l2);
                     cx.violation(&format!("lef|{}|{}|mismatch|{}", f, leg, class), json!({"at": at}));
                 } else {
